@@ -80,3 +80,14 @@ Fixpoint matches (h : hist) (x : hog) : Prop :=
            end) lins groups
   | _, _ => False
   end.
+
+(* the same history with lineages, copies and members (recursively) listed in another order *)
+Inductive hperm : hist -> hist -> Prop :=
+| hp_refl h : hperm h h
+| hp_trans a b c : hperm a b -> hperm b c -> hperm a c
+| hp_lins p l l' : Permutation l l' -> hperm (XH p l) (XH p l')
+| hp_copies p pre cs cs' post :
+    Permutation cs cs' -> hperm (XH p (pre ++ cs :: post)) (XH p (pre ++ cs' :: post))
+| hp_member p pre cpre c c' cpost post :
+    hperm c c' ->
+    hperm (XH p (pre ++ (cpre ++ c :: cpost) :: post)) (XH p (pre ++ (cpre ++ c' :: cpost) :: post)).
